@@ -2,6 +2,16 @@
 """Regenerates MANIFEST.json from the table below."""
 import json
 claimed = {
+ "C02": ("exploration", "8 C02", "seeded deterministic whole-system simulation: real frps + real frpc http proxy, raw HTTP/1.1 users and a recording backend; request/response comparison modulo declared rewrites; bounded error answers for unreachable and silent backends",
+         "Generated request/response shapes x header-rewrite configurations x tunnel options x keep-alive sequences x network schedules; bodies compared after de-framing, end-to-end headers as multisets."),
+ "C03": ("exploration", "8 C03", "seeded deterministic whole-system simulation over simulated UDP with per-leg loss/duplication/reordering and work-connection resets; multiset-inclusion oracles measured at the public socket and at the client's local sockets; reply addressing",
+         "Datagram payloads 12..packet size, several user source addresses, udp and sudp(visitor) paths, encryption/compression/mux; injected duplication/loss is never blamed on frp because inclusion is measured after the faulty leg."),
+ "C06": ("exploration", "8 C06", "seeded deterministic simulation: scripted route owners, histories of register/acknowledged-remove/re-register interleaved with HTTP (keep-alive), SNI and CONNECT requests, checked against a reference most-specific matcher written from the statement",
+         "Route tables with exact/wildcard/catch-all hosts, nested locations, user restrictions on http/https/tcpmux vhosts; every request's serving backend (which stamps and records) is compared with the reference owner; removed routes must stay silent."),
+ "C07": ("exploration", "8 C07", "seeded deterministic simulation in the routes world: protected, unprotected and user-routed routes on the same hosts; request-shape enumeration (origin/absolute form, CONNECT, Authorization/Proxy-Authorization variants, malformed credentials); negative oracle on what protected backends saw",
+         "The quantifier is inputs x configurations; decided inside the simulator because the observable spans requester, frps and the backend; a protected backend must have seen a request only if it carried exactly its credentials."),
+ "C20": ("exploration", "8 C20", "seeded deterministic simulation: scripted visitor/owner/third-party controls on real frps with generated NAT observations and message orders; pairing, complementarity, mode-rule, range and hygiene oracles; real MakeHole for both roles over simulated UDP",
+         "Generated observation pairs x histories (reports before analysis, duplicates, unknown sids, silent owner); both responses are compared with each other and with the statement's role rules; the real client routine must meet on an unfiltered simulated network."),
  "C04": ("exploration", "8 C04", "seeded deterministic simulation: adversarial scripted peers (independent protocol implementation) against real frps with an honest client carrying traffic; refusal, heartbeat-timeout, footprint and bystander oracles",
          "Adversarial message histories (bad/missing/self-exempting logins, foreign/unknown work connections, unauthenticated first messages, invalid-heartbeat sessions, floods) x scopes x TLS x mux; every refused attempt must be answered by an error or a close, never by state."),
  "C08": ("exploration", "8 C08", "seeded deterministic simulation: scripted visitors with right/wrong signatures, users and run ids against stcp/sudp/xtcp proxies with drawn allowed-user lists, interleaved with proxy close/re-open",
